@@ -192,6 +192,21 @@ class VSvcPool(_trio_service(Pool)):
 
 
 @service(flavour=trio)
+class VSvcEmpty(_trio_service(Pool)):
+    """A composite-like service pool without children: it evaluates to False (len() == 0)."""
+
+    supply = demand = 0
+    utilisation = allocation = 1.0
+
+    def __init__(self, label="empty", **kwargs):
+        self.children = []
+        self._setup(label, kwargs)
+
+    def __len__(self):
+        return len(self.children)
+
+
+@service(flavour=trio)
 class VSvcCtrl(_trio_service(Controller)):
     def __init__(self, target, label="ctrl", **kwargs):
         super().__init__(target)
